@@ -180,7 +180,7 @@ VH_CMD(toolhash) {
     std::ostringstream dump;
     supprs.nomsg.dump(dump, filePath);
     return {std::to_string(cppcheck.calculateHash(preprocessor, filePath)), dump.str(), s.platform.toString(),
-            std::to_string(static_cast<int>(s.standards.c)) + "/" + std::to_string(static_cast<int>(s.standards.cpp))};
+            s.standards.getC() + s.standards.getCPP()};
 }
 
 VH_MAIN()
